@@ -16,6 +16,13 @@ for d in seeded/*${1:-}*; do
   rm -rf "$W"
   v=$(echo "$out" | grep -c "^VIOLATION property=$prop ")
   echo "$name: exit=$rc violations=$v"
+  python3 - "/verif/$d/meta.json" "$prop" "$rc" "$(echo "$out" | grep "^VIOLATION property=$prop " | sed "s#replay=.*/replays/#replay=<out>/replays/#" | head -3 | tr '\n' ';')" <<'PY'
+import json, sys
+p, prop, rc, viol = sys.argv[1:5]
+m = json.load(open(p))
+m.setdefault("confirmed", {})["latest_check_run"] = f"{prop}:exit={rc} [{viol}]"
+json.dump(m, open(p, "w"), indent=1)
+PY
   if [ "$rc" != 1 ] || [ "$v" = 0 ]; then bad=1; echo "$out" | tail -5; fi
 done
 rm -rf "$VERIF_OUT"
